@@ -1,0 +1,26 @@
+//! Pause points for schedule-directed verification (only with `--cfg eyeball_verif`).
+//!
+//! A hook installed with [`set_pause_hook`] is called with the name of each
+//! pause point a thread passes. The hook decides by itself which threads it
+//! wants to hold (the verification harness keeps a thread-local opt-in), so
+//! threads that are not under its control are never stopped.
+
+use std::sync::{Arc, RwLock};
+
+/// Type of the hook called at every pause point.
+pub type PauseHook = Arc<dyn Fn(&'static str) + Send + Sync>;
+
+static HOOK: RwLock<Option<PauseHook>> = RwLock::new(None);
+
+/// Install (or remove) the pause hook.
+pub fn set_pause_hook(hook: Option<PauseHook>) {
+    *HOOK.write().unwrap_or_else(|e| e.into_inner()) = hook;
+}
+
+/// Called by the library at a pause point.
+pub(crate) fn point(name: &'static str) {
+    let hook = HOOK.read().unwrap_or_else(|e| e.into_inner()).clone();
+    if let Some(hook) = hook {
+        hook(name);
+    }
+}
